@@ -80,12 +80,16 @@ var c06FuncPos = []struct{ name, src string }{
 	{"index-expr", "{{ xs[forbid_fn(y2)] }}"},
 	{"do-tag", "{% do forbid_fn(x) %}"},
 	{"test-operand", "{{ forbid_fn(y2) is even ? 'e' : 'o' }}"},
+	{"method-style-print", "{{ mp.forbid_fn(x) }}"},
+	{"method-style-cond", "{% if mp.forbid_fn(x) %}a{% endif %}"},
+	{"method-style-on-string", "{{ x.forbid_fn(y2) }}"},
+	{"method-style-arg", "{{ max(1, mp.forbid_fn(y2)) }}"},
 }
 
 var c06CarrierNames = []string{"include", "include-only", "include-with", "extends+override", "extends(parent-body)", "parent()", "import-as+call", "from-import+call",
 	"local-macro", "apply", "for", "if", "block", "set-then-print"}
 
-const c06Vars = "{'x': x, 'y2': y2, 'xs': xs, 't': t, 'nul': nul}"
+const c06Vars = "{'x': x, 'y2': y2, 'xs': xs, 't': t, 'nul': nul, 'mp': mp}"
 
 // c06Carry wraps body b in carrier kind k at depth d; extra templates are added to tm.
 func c06Carry(k, d int, b string, tm map[string]string) string {
@@ -110,13 +114,13 @@ func c06Carry(k, d int, b string, tm map[string]string) string {
 		tm[n] = "[{% block b" + n + " %}" + b + "{% endblock %}]"
 		return "{% extends '" + n + "' %}{% block b" + n + " %}<{{ parent() }}>{% endblock %}"
 	case 6:
-		tm[n] = "{% macro cm" + n + "(x, y2, xs, t, nul) %}" + b + "{% endmacro %}"
-		return "{% import '" + n + "' as lib" + n + " %}{{ lib" + n + ".cm" + n + "(x, y2, xs, t, nul) }}"
+		tm[n] = "{% macro cm" + n + "(x, y2, xs, t, nul, mp) %}" + b + "{% endmacro %}"
+		return "{% import '" + n + "' as lib" + n + " %}{{ lib" + n + ".cm" + n + "(x, y2, xs, t, nul, mp) }}"
 	case 7:
-		tm[n] = "{% macro cm" + n + "(x, y2, xs, t, nul) %}" + b + "{% endmacro %}"
-		return "{% from '" + n + "' import cm" + n + " %}{{ cm" + n + "(x, y2, xs, t, nul) }}"
+		tm[n] = "{% macro cm" + n + "(x, y2, xs, t, nul, mp) %}" + b + "{% endmacro %}"
+		return "{% from '" + n + "' import cm" + n + " %}{{ cm" + n + "(x, y2, xs, t, nul, mp) }}"
 	case 8:
-		return "{% macro cm" + n + "(x, y2, xs, t, nul) %}" + b + "{% endmacro %}{{ cm" + n + "(x, y2, xs, t, nul) }}"
+		return "{% macro cm" + n + "(x, y2, xs, t, nul, mp) %}" + b + "{% endmacro %}{{ cm" + n + "(x, y2, xs, t, nul, mp) }}"
 	case 9:
 		return "{% apply lower %}" + b + "{% endapply %}"
 	case 10:
@@ -168,7 +172,7 @@ func c06Build(c C06Case, sandboxed bool) (map[string]string, string) {
 	case 3:
 		main = "A{% block outer %}" + inc + "{% endblock %}B"
 	case 4:
-		main = "{% macro wrap(x, y2, xs, t, nul) %}" + inc + "{% endmacro %}A{{ wrap(x, y2, xs, t, nul) }}B"
+		main = "{% macro wrap(x, y2, xs, t, nul, mp) %}" + inc + "{% endmacro %}A{{ wrap(x, y2, xs, t, nul, mp) }}B"
 	default:
 		main = "A" + inc + "B"
 	}
@@ -214,7 +218,7 @@ func c06Policy(c C06Case, allowSpy bool) twig.SecurityPolicy {
 	return p
 }
 
-var c06Ctx = map[string]interface{}{"x": "Val", "y2": 1, "xs": []interface{}{3, 1, 2}, "t": true, "nul": nil}
+var c06Ctx = map[string]interface{}{"x": "Val", "y2": 1, "xs": []interface{}{3, 1, 2}, "t": true, "nul": nil, "mp": map[string]interface{}{"k": 1}}
 
 func c06Run(tm map[string]string, pol twig.SecurityPolicy) (Res, *Spies) {
 	e := newEngine(tm)
